@@ -1424,6 +1424,37 @@ def shapes_of(src: str):
                 out.add("fn-lcd-animate")
             if isinstance(n, ast.Call) and isinstance(n.func, ast.Name) and n.func.id in order and order[n.func.id] > order[f.name]:
                 out.add("fn-forward-call")
+    # un-annotated parameters: (1) re-bound in the body to a string-valued expression (the C++ parameter becomes String, int call
+    # sites no longer convert); (2) given a string / float literal at a call site outside an assignment or return value (no call
+    # signature is recorded there, so no variant for that argument type is emitted)
+    unann = {f.name: [i for i, a in enumerate(f.args.args) if a.annotation is None] for f in fdefs}
+    for f in fdefs:
+        pn = {a.arg for a in f.args.args if a.annotation is None}
+        for n in ast.walk(f):
+            if isinstance(n, (ast.Assign, ast.AugAssign)):
+                tg = n.targets if isinstance(n, ast.Assign) else [n.target]
+                if any(isinstance(t, ast.Name) and t.id in pn for t in tg):
+                    for m in ast.walk(n.value):
+                        if (isinstance(m, ast.Constant) and isinstance(m.value, str)) or isinstance(m, ast.JoinedStr) or \
+                                (isinstance(m, ast.Call) and isinstance(m.func, ast.Name) and m.func.id in ("str", "len")):
+                            out.add("param-rebound-string")
+    recorded = set()
+    for n in ast.walk(tree):
+        val = None
+        if isinstance(n, (ast.Assign, ast.AugAssign, ast.AnnAssign)):
+            val = n.value
+        elif isinstance(n, ast.Return):
+            val = n.value
+        if val is not None:
+            for m in ast.walk(val):
+                recorded.add(id(m))
+    for n in ast.walk(tree):
+        if isinstance(n, ast.Call) and isinstance(n.func, ast.Name) and n.func.id in unann and id(n) not in recorded:
+            for i in unann[n.func.id]:
+                if i < len(n.args):
+                    a = n.args[i]
+                    if isinstance(a, ast.JoinedStr) or (isinstance(a, ast.Constant) and isinstance(a.value, (str, float)) and not isinstance(a.value, bool)):
+                        out.add("call-site-unspecialised")
     # a tuple assignment at top level that introduces SOME new names (not all): the new ones become locals of setup()
     assigned = set()
     for st in tree.body:
